@@ -8386,6 +8386,8 @@ S_<TN_, TA_, TH_>::deepPreUpdate(FullControl& control) noexcept {
 
 	ScopedOrigin origin{control, STATE_ID};
 
+	control._taskStatus.clear();
+
 	Head::widePreUpdate(control);
 	Head::	  preUpdate(control);
 
@@ -8401,6 +8403,8 @@ S_<TN_, TA_, TH_>::deepUpdate(FullControl& control) noexcept {
 
 	ScopedOrigin origin{control, STATE_ID};
 
+	control._taskStatus.clear();
+
 	Head::wideUpdate(control);
 	Head::	  update(control);
 
@@ -8415,6 +8419,8 @@ S_<TN_, TA_, TH_>::deepPostUpdate(FullControl& control) noexcept {
 						   Method::POST_UPDATE);
 
 	ScopedOrigin origin{control, STATE_ID};
+
+	control._taskStatus.clear();
 
 	Head::	  postUpdate(control);
 	Head::widePostUpdate(control);
@@ -8439,6 +8445,8 @@ S_<TN_, TA_, TH_>::deepPreReact(EventControl& control,
 
 	ScopedOrigin origin{control, STATE_ID};
 
+	control._taskStatus.clear();
+
 	Head::widePreReact(event, control);
 	(this->*method) (event, control);
 
@@ -8462,6 +8470,8 @@ S_<TN_, TA_, TH_>::deepReact(EventControl& control,
 
 	ScopedOrigin origin{control, STATE_ID};
 
+	control._taskStatus.clear();
+
 	Head::wideReact(event, control);
 	(this->*method)(event, control);
 
@@ -8484,6 +8494,8 @@ S_<TN_, TA_, TH_>::deepPostReact(EventControl& control,
 						   Method::POST_REACT);
 
 	ScopedOrigin origin{control, STATE_ID};
+
+	control._taskStatus.clear();
 
 	(this->*method)	   (event, control);
 	Head::widePostReact(event, control);
